@@ -13,6 +13,7 @@ LEVELS = {
  "C08": ("exploration", "4.C08", "Tens of thousands of generated subscribe/unsubscribe/fire histories with re-entrant listener scripts; the complete delivery log (listener, type, unique content id, timestamp) of every top-level operation is compared with an executable reference subscription model, has_listeners() after every operation; generated payload shapes against generated metadata declarations. Held = no log differed, no non-conforming event was created.", "Only 'created => conforms' is judged for metadata; recursion bounded at depth 3 / 2 activations per (listener, type) in both model and real run."),
  "C09": ("exploration", "4.C09", "Every public getter (both bias flags, alpha in {0,.01,.05,.5,1}) after operations of thousands of generated observation sequences (degenerate, ill-conditioned, large n, resets, rejected inputs) compared with exact rational arithmetic under conditioning-aware tolerances (largest observed error/tolerance ratio is reported); NaN structure and totality judged always. Held = no getter raised or left its tolerance.", "Finite observations with |x| in {0} or [1e-6,1e12]; statistics whose tolerance exceeds 1e-3 are judged for totality only; SAS/Excel form of the unbiased skewness."),
  "C10": ("exploration", "4.C10", "All public getters after every operation of thousands of generated (weight, value) and (time, value) histories (zero and all-zero weights, repeated timestamps, closing, use after closing, re-initialisation, rejected inputs) compared with exact rational weighted moments and the exact integral of the step function; total weight pinned to the span through weighted_sum/weighted_mean. Held = no getter raised or left its tolerance, no ignored/rejected input changed a getter.", "Finite inputs in the stated envelope; undefined statistics at total weight 0 judged for totality only; n/min/max of the timestamp variant not judged."),
+ "C13": ("exploration", "4.C13", "Generated stream/seed-table configurations are evaluated in 5 child interpreters with different PYTHONHASHSEED values; seed and first draws per stream must agree across interpreters, across listing orders, with the stream updated alone, and after unrelated prior use; table semantics and the fallback are checked per stream; invalid replication numbers must be refused without touching the stream (twin comparison). Held = all observations agreed.", "Differences that only show with hash seeds not sampled are not seen; bool replication numbers not judged."),
 }
 
 def main():
